@@ -74,6 +74,11 @@ class SimLoop(asyncio.SelectorEventLoop):
         return None
 
 
+class WallClockGuard(BaseException):
+    """Raised inside the loop by the wall-clock alarm. A BaseException so that the library's own
+    `except Exception` arms cannot swallow it; `run()` converts it to TimeoutError for the caller."""
+
+
 async def settle(max_iters: int = 10_000):
     """Yield until no callback is ready (does not advance virtual time past the present)."""
     loop = asyncio.get_running_loop()
@@ -113,7 +118,7 @@ def run(coro_fn, *args, start: float = 1000.0, patch_clock: bool = True, wall_ti
     asyncio.set_event_loop(loop)
 
     def on_alarm(signum, frame):
-        raise TimeoutError('wall-clock guard: case took too long')
+        raise WallClockGuard('wall-clock guard: case took too long')
 
     old = None
     try:
@@ -122,11 +127,14 @@ def run(coro_fn, *args, start: float = 1000.0, patch_clock: bool = True, wall_ti
             signal.setitimer(signal.ITIMER_REAL, wall_timeout)
         except ValueError:
             old = None
-        if patch_clock:
-            with patched_clock(loop):
+        try:
+            if patch_clock:
+                with patched_clock(loop):
+                    res = loop.run_until_complete(coro_fn(loop, *args))
+            else:
                 res = loop.run_until_complete(coro_fn(loop, *args))
-        else:
-            res = loop.run_until_complete(coro_fn(loop, *args))
+        except WallClockGuard as e:
+            raise TimeoutError(str(e)) from None
         return res, loop
     finally:
         try:
